@@ -58,6 +58,15 @@ def impl(line):
         if r3 != r1:
             return f'UNSTABLE {tf(r1)} then {tf(r3)} after {what}'
         return tf(r1)
+    if op == 'inseq':
+        # ONE live object asked a whole sequence of queries: `pip.inseq k x1 y1 … xk yk <shape>`; an answer must not depend
+        # on what the object was asked before
+        k = int(a[0])
+        s = planar.to_impl(planar.parse_shape(a[1 + 2 * k:]))
+        out = []
+        for i in range(k):
+            out.append(tf(s.contains_coordinate(_coord(a[1 + 2 * i], a[2 + 2 * i]))))
+        return ''.join(out)
     raise ValueError(op)
 
 
@@ -84,6 +93,11 @@ def spec(line):
         if not inside:
             return 'F'
         return tf(not any(planar.in_ring(p, h) == 1 for h in s.holes))
+    if op == 'inseq':
+        k = int(a[0])
+        shape = ' '.join(a[1 + 2 * k:])
+        outs = [spec(f'pip.in {a[1 + 2 * i]} {a[2 + 2 * i]} {shape}') for i in range(k)]
+        return None if any(o is None for o in outs) else ''.join(outs)
     if op in ('mk', 'mkhole'):
         # closed, counter-clockwise (clockwise for a hole), same cyclic vertex sequence up to reversal
         pts = planar._pts(a)
@@ -329,6 +343,26 @@ def check(run):
                 qx, qy = a[0] + (b[0] - a[0]) * t, a[1] + (b[1] - a[1]) * t
             lines.append(f'pip.in {rat(qx)} {rat(qy)} poly {flat(ring)}')
     run.run_cases('random-rings', lines, impl, spec, tag=classify)
+
+    # 7. one object, many questions: a polygon (with a hole) around the origin is asked every point of the whole-degree lattice
+    #    -3..3 in a seeded order — whole degrees so that ordinates with equal CPython hashes meet (hash(-1.0) == hash(-2.0):
+    #    seeded change C01-s2 memoised the answer per polygon object under hash(coord)) — and its exact answer is compared
+    #    per position (no Lean side: the theorems are about single queries; the oracle is the exact even-odd test)
+    lines = []
+    lattice = [(F(x), F(y)) for x in range(-3, 4) for y in range(-3, 4)]
+    seq_shapes = [
+        'poly ' + flat([(F(-5, 2), F(-5, 2)), (F(5, 2), F(-5, 2)), (F(5, 2), F(5, 2)), (F(-5, 2), F(5, 2))])
+        + ' h ' + flat([(F(-3, 2), F(-3, 2)), (F(-1, 2), F(-3, 2)), (F(-1, 2), F(1, 2)), (F(-3, 2), F(1, 2))]),
+        'poly ' + flat([(F(-3, 2), F(-7, 2)), (F(7, 2), F(-3, 2)), (F(3, 2), F(7, 2)), (F(-7, 2), F(3, 2))]),
+        'poly ' + flat([(F(-3, 2), F(-5, 2)), (F(5, 2), F(-5, 2)), (F(5, 2), F(5, 2)), (F(-3, 2), F(5, 2))]),
+        'box ' + flat([(F(-3, 2), F(5, 2)), (F(5, 2), F(-5, 2))]) + ' h ' + flat([(F(-1, 2), F(-3, 2)), (F(3, 2), F(-3, 2)), (F(1, 2), F(-1, 2))]),
+    ]
+    for txt in seq_shapes:
+        for _ in range(run.scale(6, 60)):
+            qs = rng.sample(lattice, len(lattice))
+            lines.append(f'pip.inseq {len(qs)} ' + ' '.join(f'{rat(q[0])} {rat(q[1])}' for q in qs) + ' ' + txt)
+    run.run_cases('same-object-query-sequences', lines, impl, spec, model=False,
+                  tag=lambda ln, a: ['inseq:' + ('ok' if set(a) <= set('TF') else a[:12])])
 
     return run.finish(
         rule='simple rings with 3-5(6) vertices on a small integer grid (all / seeded sample), every rotation and reversal, '
